@@ -58,8 +58,9 @@ Step(e) ==
        /\ putM' = [putM EXCEPT ![e.item] = @ \cup {<<"clr", -1, -1>>}]
        /\ UNCHANGED <<sv, putV>>
     \/ /\ e.e = "vframe"
-       \* store before send: the published value was handed to the store earlier
-       /\ e.lane \in PVals => e.v \in putV[e.lane]
+       \* store before send: the published value was handed to the store earlier (the default value of a lane
+       \* for which nothing was ever stored is what a restart would restore anyway, so publishing it is fine)
+       /\ e.lane \in PVals => (e.v \in putV[e.lane] \/ (putV[e.lane] = {} /\ sv[e.lane] = -1 /\ e.v = 0))
        /\ UNCHANGED <<sv, sm, putV, putM>>
     \/ /\ e.e = "mframe"
        /\ e.lane \in PMaps => <<e.m, e.k, e.v>> \in putM[e.lane]
